@@ -231,6 +231,16 @@ impl Run {
 			println!("KNOWN-FINDING: property={} {} [{}; {} recorded transitions]", self.property, what, id, n);
 			known_hit.push(json!({"id": id, "what": what, "recorded": n, "first": first.as_ref().map(|v| json!({"system": v.system, "init": v.init, "path": v.path, "detail": v.failure.detail}))}));
 		}
+		if std::env::var("VERIF_DUMP_SIGS").is_ok() {
+			let mut m: BTreeMap<(String, String), (u64, String)> = BTreeMap::new();
+			for v in &self.unlisted {
+				let e = m.entry((v.system.clone(), v.failure.sig.clone())).or_insert((0, format!("{:?} :: {}", v.path.last(), v.failure.detail)));
+				e.0 += 1;
+			}
+			for ((sys, sig), (n, d)) in m {
+				eprintln!("SIG\t{sys}\t{sig}\t{n}\t{}", d.chars().take(300).collect::<String>());
+			}
+		}
 		let mut replay_paths = vec![];
 		let mut seen_sig = std::collections::BTreeSet::new();
 		for v in &self.unlisted {
